@@ -90,10 +90,22 @@ PROPS = {
         "technique": "bounded exhaustive exploration of operation sequences with an invariant monitor on every transition",
         "assumptions": ["a case cut by the per-case CPU/memory budget is counted as cut (C03's subject), not judged"],
     },
+    "C07": {
+        "bin": "px_icy", "budget_ms": 30000, "mem_cap_mb": 2048, "wall_cap": {"quick": 150, "thorough": 2400},
+        "rule": "documents: a two-layer base document varied in every single dimension and every pair of dimensions (quick: pairs with <=200 combinations; thorough: all pairs) over 18 dimensions - layer count 1..=6, layer size "
+                "{0x0,1x1,2x2,3x1,200x2,1x120,0x2,2x0,200x120}, offsets {-50,-1,0,2,50}, all 32 flag combinations of a normal and of the base layer, 3 modes, colour tag, transparency {0,1,255}, default font page {0,255,300}, "
+                "titles (empty, Unicode incl. astral, 300 chars, embedded NUL), 5 buffer types, 3 ice modes, 4 palette modes, 4 font modes, palettes of 16/1/17/300 colours, font slots {0}/{0,1}/{0,255,300}, SAUCE none/plain/with comments, "
+                "buffer sizes up to 200x120; cells: every row of length 0..=4 over 7 cell kinds (short, long char, long colour, long font page, invisible, transparent fg, transparent bg) in layers of width len, len+1, len+3 (row terminator placement); "
+                "non-trivial = every document (all contain visible cells)",
+        "level_text": "every document of the stated small scope is saved by the real Buffer::to_bytes(\"icy\", lossless) and loaded by the real Buffer::from_bytes and compared field by field",
+        "level_note": "invisible cells compare as invisible only; documents referencing a font page without a font or a colour beyond the palette are excluded as the statement excludes them",
+        "technique": "small-scope exhaustive input enumeration (pairwise-complete over document dimensions, complete over cell rows up to length 4) with a round-trip oracle on the implementation",
+        "assumptions": [],
+    },
     "C10": {
-        "bin": "px_unicode", "budget_ms": 20000, "wall_cap": {"quick": 100, "thorough": 2400},
+        "bin": "px_unicode", "parts": [{"bin": "px_unicode"}, {"bin": "px_icy"}], "budget_ms": 20000, "wall_cap": {"quick": 100, "thorough": 2400},
         "rule": "complete value domains: fill-rectangle character parameter (quick: all values < 2^22 plus every 2^k, 2^k+-1, surrogate / 0x10FFFF boundaries and the saturation values; thorough: all 2^31 reachable values), "
-                "all 65536 16-bit clipboard character values, PSF2/PSF1/raw glyph tables up to 2^17 glyphs, all 256^2 hex macro byte pairs (macro invoked), IcyDraw long-form cells and strings [with C07]; "
+                "all 65536 16-bit clipboard character values, PSF2/PSF1/raw glyph tables up to 2^17 glyphs, all 256^2 hex macro byte pairs (macro invoked), IcyDraw long-form cell character fields (surrogate bounds, every 2^k and 2^k+-1 for k=8..31, values beyond U+10FFFF; in a first and in a continuation chunk) and every 1-byte and ~4400 2-byte strings as layer title and font name in hand-built IcyDraw chunk streams; "
                 "non-trivial = batch touches the surrogate range / hex digits / a glyph table",
         "level_text": "every value of each input-derived character conversion is pushed through the real code and the stored cells, glyph keys and strings are inspected",
         "level_note": "an invalid char is observed as its raw bits (debug assertions off); reading one is already UB, so a finding means 'materialised', silence means 'not materialised on any explored value'",
@@ -164,6 +176,8 @@ PROPS = {
 HOOK_COMMITS = ["81babd1"]
 
 ENGINES = [
+    {"name": "px_icy", "path": "harness/src/bin/px_icy.rs", "serves_properties": ["C07", "C10"],
+     "kind_free_text": "IcyDraw document enumerator with a field-by-field round-trip oracle; hand-built IcyDraw chunk streams for the character / string validity invariant"},
     {"name": "px_text", "path": "harness/src/bin/px_text.rs", "serves_properties": ["C04", "C15"],
      "kind_free_text": "text format round trips (ANSI with the full option space; Avatar, PCBoard, Ctrl-A, Renegade, ASCII, ATASCII)"},
     {"name": "px_editor", "path": "harness/src/bin/px_editor.rs", "serves_properties": ["C08"],
